@@ -61,27 +61,45 @@ theorem rows_flatten {α} (l : List α) (m nv : Nat) (hnv : 0 < nv) (hl : l.leng
     rw [g1 _ _ h1, g1 _ _ h2] at this
     exact this
 
-theorem readText_rows {α} (l : List α) (m nv : Nat) (hm : 0 < m) (hnv : 0 < nv) (hl : l.length = m * nv) (d : α) :
-    readText (tab m fun r => tab nv fun k => l.getD (r * nv + k) d) m nv = .ok l := by
+theorem padRow_full {α} (nan : α) (k : Nat) (r : List α) (h : r.length = k) : padRow nan k r = r := by
+  unfold padRow; rw [h]; simp
+
+/-- rows that all have `vd > 0` entries: nothing is refused, padded or dropped -/
+theorem readText_uniform {α} (nan : α) (rows : List (List α)) (m vd : Nat) (hm : 0 < m) (hlen : rows.length = m)
+    (hvd : 0 < vd) (hu : ∀ r ∈ rows, r.length = vd) : readText nan rows m vd = .ok rows.flatten := by
   unfold readText
-  have ht : (tab m fun r => tab nv fun k => l.getD (r * nv + k) d).take m
-      = tab m fun r => tab nv fun k => l.getD (r * nv + k) d := by
-    apply List.take_of_length_le; simp
+  have ht : rows.take m = rows := List.take_of_length_le (by omega)
   rw [ht]
-  obtain ⟨m', rfl⟩ : ∃ m', m = m' + 1 := ⟨m - 1, by omega⟩
-  have c1 : (tab (m' + 1) fun r => tab nv fun k => l.getD (r * nv + k) d).isEmpty = false := by
-    rw [tab_succ]; rfl
-  have c2 : ((tab (m' + 1) fun r => tab nv fun k => l.getD (r * nv + k) d).headD []).length = nv := by
-    rw [tab_succ]; simp
-  have c3 : (tab (m' + 1) fun r => tab nv fun k => l.getD (r * nv + k) d).all
-      (fun r => r.length == ((tab (m' + 1) fun r => tab nv fun k => l.getD (r * nv + k) d).headD []).length) = true := by
-    rw [c2, List.all_eq_true]
+  cases rows with
+  | nil => simp at hlen; omega
+  | cons r rs =>
+    have hr : r.length = vd := hu r (by simp)
+    have h1 : (r :: rs).any (fun x => x.isEmpty) = false := by
+      rw [List.any_eq_false]
+      intro x hx
+      have := hu x hx
+      cases x with
+      | nil => simp at this; omega
+      | cons _ _ => simp
+    have h2 : ((r :: rs).all fun x => decide (x.length ≤ ((r :: rs).headD []).length)) = true := by
+      rw [List.all_eq_true]
+      intro x hx
+      simp [hu x hx, hr]
+    have hne : ¬ (vd = vd + 1) := by omega
+    rw [h1, h2]
+    simp only [List.isEmpty_cons, Bool.false_eq_true, if_false, Bool.not_true, List.headD_cons, hr, hne]
+    congr 1
+    rw [List.flatten_eq_flatMap]
+    apply List.flatMap_congr
+    intro x hx
+    exact padRow_full nan vd x (hu x hx)
+
+theorem readText_rows {α} (nan : α) (l : List α) (m nv : Nat) (hm : 0 < m) (hnv : 0 < nv) (hl : l.length = m * nv) (d : α) :
+    readText nan (tab m fun r => tab nv fun k => l.getD (r * nv + k) d) m nv = .ok l := by
+  rw [readText_uniform nan _ m nv hm (by simp) hnv (by
     intro r hr
     obtain ⟨a, _, rfl⟩ := mem_tab _ _ _ hr
-    simp
-  rw [c1, c3, c2]
-  simp only [Bool.false_eq_true, if_false, Bool.not_true]
-  rw [if_neg (by omega), rows_flatten l (m' + 1) nv hnv hl d]
+    simp), rows_flatten l m nv hnv hl d]
 
 theorem parse_txt_ok {α} [DecidableEq α] (c : Codec α) (F : OvfFile α)
     (h : List (String × HVal)) (lo hi cell : Nat → Rat) (n : Nat → Nat) (mu : String)
@@ -92,7 +110,7 @@ theorem parse_txt_ok {α} [DecidableEq α] (c : Codec α) (F : OvfFile α)
     (hscan : scan F.lines [] = some (h, ws))
     (vd : Nat) (hvdim : valueDim F.first h = .ok vd)
     (rows : List (List α)) (footer : List String) (hbody : F.body = .text rows footer)
-    (flat : List α) (hrows : readText rows (natProd [n 0, n 1, n 2]) vd = .ok flat) :
+    (flat : List α) (hrows : readText c.nan rows (natProd [n 0, n 1, n 2]) vd = .ok flat) :
     parse c F = .ok { mesh := meshOf lo hi n mu, vd := vd, flat := flat, header := h } := by
   unfold parse
   rw [hscan]
